@@ -104,9 +104,11 @@ def run(ctx):
             sect.setdefault("brokerid", "brk.com")
             fidb[s] = sect
         env.write_fidb("".join("[%s]\n%s\n" % (s, "".join("%s = %s\n" % kv for kv in sect.items())) for s, sect in fidb.items()))
-        home = {"424": Lookup("https://home424.invalid/ofx", "HOMEORG", "4240", "home.brk"),
+        # (the URL of 424 has '&' followed by names that are HTML entities without their ';')
+        home = {"424": Lookup("https://home424.invalid/ofx?lang=en&region=us&copy=1", "HOME&ORG <1>", "4240", "home.brk"),
                 "555": Lookup("https://home555.invalid/?q=%7E", "H5", None, None)}
         env.ofxhome = home
+        env.ofxhome_wire = h % 3 != 0        # mostly through the real ofxhome.lookup over a fake OFX Home (XML records)
         env.write_usercfg("")
         if env.usercfg_path.exists():
             env.usercfg_path.unlink()
@@ -129,6 +131,12 @@ def run(ctx):
                         cli[o] = True
                     else:
                         cli[o] = rnd.choice(POOL[o])
+            # an option given as the empty text on the command line: "explicitly nothing" outranks the lower sources
+            blank = set()
+            for o in ("org", "fid", "ofxhome", "useragent"):      # (a blank user / broker id makes the request itself impossible)
+                if o not in cli and rnd.random() < 0.06:
+                    cli[o] = ""
+                    blank.add(o)
             write = rnd.random() < 0.55
             dry = rnd.random() < 0.2
             argv = ["stmt", srv, "--password", password]
@@ -155,7 +163,7 @@ def run(ctx):
             if res["exc"] and not res["ok"]:
                 # the handler failed after merging (e.g. a request the fake server cannot serve): judge precedence only
                 ran = bool(res["args"]) and "Missing URL" not in res["exc"]
-            ev = {"id": "h%dr%d" % (h, step), "op": "run", "failed": bool(res["exc"]), "srv": srv, "cli": {o: cps(canon(cli.get(o))) for o in OPTS},
+            ev = {"id": "h%dr%d" % (h, step), "op": "run", "failed": bool(res["exc"]), "srv": srv, "cli": {o: ([0] if o in blank else cps(canon(cli.get(o)))) for o in OPTS},
                   "write": write, "dry": dry, "ran": ran and parsed and (res["ok"] or not write),
                   "eff": {o: cps(canon(res["args"].get(o))) for o in OPTS},
                   "after": {s: {o: cps(after.get(s, {}).get(o, "")) for o in OPTS} for s in ("srv1", "srv2")},
